@@ -113,6 +113,15 @@ const (
 	// the origin.
 	c12CondFactor = 32
 	c12CondSlack  = 8 // the same for the range and monotonicity slack
+
+	// Large samples: the largest density of the estimate (the scale of the
+	// density tolerances) is taken over all data points up to c12FmaxAll of
+	// them and over c12FmaxSub of them beyond (the reference is O(n) per
+	// point); integrals of the library's density (one panel per kernel end,
+	// each an O(n) call) are taken up to c12IntegMaxN values.
+	c12FmaxAll   = 400
+	c12FmaxSub   = 32
+	c12IntegMaxN = 300
 )
 
 // c12Stat is the harness type handed to the bandwidth rules.
@@ -187,6 +196,9 @@ func c12JudgeBWSample(w *mon.W, c c12Case) {
 	w.HitIf(info.IQR/1.349 < info.SD, "bw-robust-branch")
 	w.HitIf(info.IQR/1.349 >= info.SD, "bw-stddev-branch")
 	w.HitIf(c.Sorted, "sorted-flag")
+	c12HitSize(w, len(xs), c.Sorted, false)
+	w.HitIf(len(xs) > 40, "large/bw-sample")
+	w.HitIf(len(xs) > 40 && info.IQR/1.349 < info.SD, "large/bw-robust-branch")
 	var scott, silver float64
 	w.Eval("BandwidthScott")
 	if p, e := mon.Call(func() { scott = stats.BandwidthScott(s) }); p {
@@ -263,6 +275,7 @@ type c12Ctx struct {
 	seen       map[float64]bool
 	xmin, xmax float64
 	maxAbs     float64 // largest |sample value|
+	slk        float64 // range / monotonicity slack of a rounded average of n terms
 	bounded    bool
 	bmin, bmax float64
 	conf, desc string
@@ -300,12 +313,83 @@ func (t *c12Ctx) cond(m *ref.KDEModel, x float64) float64 {
 func (t *c12Ctx) fmaxData(m *ref.KDEModel) float64 {
 	fmax := 0.0
 	if t.c.Kernel != ref.KDelta {
-		for _, x := range t.xs {
+		// every data point up to c12FmaxAll of them; of a larger sample every
+		// (n/c12FmaxSub)-th in the order given (a smaller "largest density"
+		// only tightens the tolerances that are relative to it)
+		step := 1
+		if n := len(t.xs); n > c12FmaxAll {
+			step = n / c12FmaxSub
+		}
+		for i := 0; i < len(t.xs); i += step {
+			x := t.xs[i]
 			fmax = math.Max(fmax, m.PDF(x))
 			fmax = math.Max(fmax, m.BasePDF(x))
 		}
 	}
 	return fmax
+}
+
+// c12SlackN is the range and monotonicity slack of a distribution function
+// value that is a rounded average of n terms: c12Slack, and from a few
+// thousand terms on the bound of a plain left-to-right sum of n non-negative
+// terms divided by such a sum (n x 2^-53 relative each, doubled).
+func c12SlackN(n int) float64 {
+	return math.Max(c12Slack, 2*float64(n)*0x1p-52)
+}
+
+// c12RoundSizes are sample sizes at which an implementation may change its
+// ways (block lengths, cut-overs to another algorithm, the range of a narrow
+// counter): each is used as it stands and plus one.
+var c12RoundSizes = []int{64, 100, 128, 256, 500, 512, 1000, 1024, 2000, 2048, 4096, 5000, 8192, 10000, 16384, 20000, 32768, 50000, 65536, 100000, 131072, 200000}
+
+// c12Sizes returns the round sizes and the largest random size of a tier.
+func c12Sizes(quick bool) (round []int, maxN int) {
+	if !quick {
+		return c12RoundSizes, 200000
+	}
+	for _, r := range c12RoundSizes {
+		if r <= 20000 || r == 32768 || r == 65536 {
+			round = append(round, r)
+		}
+	}
+	return round, 20000
+}
+
+// c12LargeN is the size of case i of a large-sample class: the first
+// per*len(round) cases take every round size and its successor per/2 times
+// each, the others are log-uniform over 41..maxN.
+func c12LargeN(rng *mon.Rand, i, per int, round []int, maxN int) int {
+	if i < per*len(round) {
+		return round[i/per] + i%2
+	}
+	n := int(rng.LogUniform(41, float64(maxN)+1))
+	return min(max(n, 41), maxN)
+}
+
+// c12HitSize records the size classes of a sample of more than 40 values.
+func c12HitSize(w *mon.W, n int, sorted, weighted bool) {
+	if n <= 40 {
+		return
+	}
+	w.Hit("large/n>40")
+	switch {
+	case n <= 256:
+		w.Hit("large/n=41..256")
+	case n < 1000:
+		w.Hit("large/n=257..999")
+	case n < 10000:
+		w.Hit("large/n=1000..9999")
+	default:
+		w.Hit("large/n>=10000")
+	}
+	w.HitIf(n >= 1<<16, "large/n>=2^16")
+	for _, r := range c12RoundSizes {
+		w.HitIf(n == r, "large/n-at-round-size")
+		w.HitIf(n == r+1, "large/n-just-beyond-round-size")
+	}
+	w.HitIf(n >= 1000 && !sorted && !weighted, "large/unsorted-unweighted-n>=1000")
+	w.HitIf(weighted, "large/weights")
+	w.HitIf(sorted, "large/sorted-flag")
 }
 
 // judgePDF holds one density value p = PDF(x) against the model. refP is
@@ -367,7 +451,7 @@ func (t *c12Ctx) judgePDF(m *ref.KDEModel, x, p, refP, fmax float64, what string
 // amb says that the value was taken inside an ambiguity window.
 func (t *c12Ctx) judgeCDF(m *ref.KDEModel, x, f, refC float64, what string) (amb bool) {
 	w := t.w
-	if sl := c12Slack + c12CondSlack*t.cond(m, x); !(f >= -sl && f <= 1+sl) {
+	if sl := t.slk + c12CondSlack*t.cond(m, x); !(f >= -sl && f <= 1+sl) {
 		t.bad("cdf-range", fmt.Sprintf("%sCDF(%.17g)=%.17g outside [0,1]", what, x, f))
 		return
 	}
@@ -385,12 +469,12 @@ func (t *c12Ctx) judgeCDF(m *ref.KDEModel, x, f, refC float64, what string) (amb
 			if jump {
 				amb = true
 				w.Ambiguous()
-				if !(f >= alo-c12Slack && f <= ahi+c12Slack) {
+				if !(f >= alo-t.slk && f <= ahi+t.slk) {
 					t.bad("delta-cdf", fmt.Sprintf("%sCDF(%.17g)=%.17g, weighted empirical CDF %.17g (between %.17g and %.17g within 16 ulps)", what, x, f, refC, alo, ahi))
 				}
 			}
 		}
-		if !amb && !w.Err("CDF=weighted-ECDF", math.Abs(f-refC), c12Slack) {
+		if !amb && !w.Err("CDF=weighted-ECDF", math.Abs(f-refC), t.slk) {
 			t.bad("delta-cdf", fmt.Sprintf("%sCDF(%.17g)=%.17g, weighted empirical CDF %.17g", what, x, f, refC))
 		}
 		return
@@ -484,7 +568,8 @@ func c12NewCtx(w *mon.W, root c12Case, mxs, mws []float64) (t c12Ctx, ties bool)
 	if mws != nil {
 		ws = append([]float64(nil), mws...)
 	}
-	t = c12Ctx{w: w, root: root, xs: xs, ws: ws, seen: map[float64]bool{}, xmin: xs[0], xmax: xs[0]}
+	t = c12Ctx{w: w, root: root, xs: xs, ws: ws, seen: make(map[float64]bool, len(xs)), xmin: xs[0], xmax: xs[0]}
+	t.slk = c12SlackN(len(xs))
 	for _, x := range xs {
 		t.xmin, t.xmax = math.Min(t.xmin, x), math.Max(t.xmax, x)
 		t.maxAbs = math.Max(t.maxAbs, math.Abs(x))
@@ -530,6 +615,13 @@ func c12JudgeKDE(w *mon.W, c c12Case) {
 	w.HitIf(n >= 2 && base.xmin == base.xmax, "constant-sample")
 	w.HitIf(ties, "ties")
 	w.HitIf(c.Sorted, "sorted-flag")
+	c12HitSize(w, n, c.Sorted, ws != nil)
+	if n > 40 {
+		w.Hit("large/" + c12KernelName[c.Kernel])
+		// a kernel of bounded support narrower than the data: at most points
+		// some values are inside the kernel and some outside
+		w.HitIf(n > 256 && c.Kernel == ref.KEpanechnikov && float64(c.H) > 0 && float64(c.H) < 0.5*(base.xmax-base.xmin), "large/bounded-kernel-narrower-than-data")
+	}
 	if sp := base.xmax - base.xmin; sp > 0 {
 		w.HitIf(sp <= 1e-6, "data-scale<=1e-6")
 		w.HitIf(sp >= 1e6, "data-scale>=1e6")
@@ -825,6 +917,11 @@ func c12JudgePhase(t *c12Ctx, label string) bool {
 		far := info.MaxAbs >= 1e3*(xmax-xmin)
 		w.HitIf(far, "zero-bandwidth/data>=1000-spreads-from-origin")
 		w.HitIf(far && info.SD <= info.IQR/1.349, "zero-bandwidth/far-from-origin/stddev-branch")
+		if n > 40 {
+			w.Hit("large/zero-bandwidth")
+			w.HitIf(info.IQR/1.349 < info.SD, "large/zero-bandwidth/robust-branch")
+			w.HitIf(info.Scott < 0.02*(xmax-xmin), "large/zero-bandwidth/scott<0.02-spreads")
+		}
 		fx := xs[0]
 		if c.FirstX != nil {
 			fx = float64(*c.FirstX)
@@ -934,7 +1031,7 @@ func c12JudgePhase(t *c12Ctx, label string) bool {
 		t.judgePDF(m, x, p, refP[i], fmax, "")
 		amb := t.judgeCDF(m, x, f, refC[i], "")
 		// monotone (a value taken inside an ambiguity window is not compared)
-		if !amb && !prevAmb && f < prevC-c12Slack-c12CondSlack*t.cond(m, x) {
+		if !amb && !prevAmb && f < prevC-t.slk-c12CondSlack*t.cond(m, x) {
 			bad("cdf-monotone", fmt.Sprintf("CDF(%.17g)=%.17g < CDF(%.17g)=%.17g", x, f, prevX, prevC))
 		}
 		prevX, prevC, prevAmb = x, f, amb
@@ -1100,6 +1197,15 @@ func c12Unit(rng *mon.Rand, n int, shape int) []float64 {
 			u[i] = 0.05 * rng.Float64()
 		}
 		u[rng.Intn(n)] = 1
+	case 6: // log-normal: skewed, IQR/1.349 well below the standard deviation
+		sg := rng.Uniform(0.5, 1.2)
+		for i := range u {
+			u[i] = math.Exp(sg * rng.Norm())
+		}
+	case 7: // exponential
+		for i := range u {
+			u[i] = -math.Log(1 - rng.Float64())
+		}
 	default: // constant
 		for i := range u {
 			u[i] = 0.5
@@ -1529,6 +1635,11 @@ func c12Data(rng *mon.Rand, n int, minCentre, maxCentre float64) (xs []float64, 
 	if n >= 2 && rng.Intn(25) == 0 {
 		shape = 5
 	}
+	return c12DataShape(rng, n, shape, minCentre, maxCentre)
+}
+
+// c12DataShape is c12Data with the shape (see c12Unit) given.
+func c12DataShape(rng *mon.Rand, n, shape int, minCentre, maxCentre float64) (xs []float64, scale float64) {
 	u := c12Unit(rng, n, shape)
 	scale = rng.LogUniform(1e-12, 1e12)
 	if rng.Intn(3) == 0 {
@@ -1552,7 +1663,7 @@ func c12Data(rng *mon.Rand, n int, minCentre, maxCentre float64) (xs []float64, 
 }
 
 func c12Run(r *mon.Run) {
-	r.Rule("KDEs over samples of 1..40 values (uniform, clustered, tied lattice, normal, outlier, constant; data scale log-uniform over 1e-12..1e12 in every class, all oracles being relative to the data scale; location up to 1000 spreads from the origin, in a quarter of the zero-bandwidth class 1e3..1e7 spreads, in the far class 1e8..1e12 spreads), optional positive weights, 3 kernels, bandwidth 0.02..50 spreads (or 0 = Scott's rule, unweighted data with positive IQR), 4 boundary configurations at distance 0..100 spreads, no boundaries written (0,0) or (-Inf,+Inf); per KDE: 60 points (data points and their neighbours, kernel ends, boundaries and their neighbours, outside the boundaries, far away, uniform over the support), 6 sub-interval integrals plus the total mass, Bounds; Gaussian kernel: also points 5..37 bandwidths beyond the data (tails). Call histories: a zero-Bandwidth KDE's first call (PDF, CDF or Bounds, at a sample value or any point) is judged by value, as are first calls of three more fresh zero-Bandwidth twins at other points; every fourth random KDE (and half of the zero-bandwidth ones) is, after its evaluation, re-parameterised (Bandwidth and/or Kernel and/or boundaries assigned; in the zero-bandwidth class also Bandwidth set back to 0) on the same struct and on a by-value copy of the struct as first used, and each is evaluated again (about 30 points, 2 integrals, Bounds) against the model of the new parameters; three in eight random KDEs (a quarter of the zero-bandwidth ones) instead go through four steps that change the sample after use (all of Sample.Xs and/or Sample.Weights overwritten in place; another Sample of the same or of another length assigned, with or without weights; on the struct and on by-value copies, which share the backing arrays of the first sample, so that a write through one is seen by the other), each step followed by an evaluation against the model of the data and parameters the struct holds at the time of the call. Plus Bounds under stress (three clusters of values, each outer cluster carrying 0.3%..1.2% of the weight beyond a gap much wider than the bandwidth, so that the distribution function has a plateau near the levels an end-point search aims at; the oracle is the statement's 98%), non-constant samples 1e8..1e12 spreads from the origin (bandwidth at least 1024 ulps of the data; weights, boundaries also touching the data; Bounds' end points are held to 64 ulps), an enumerated family of small integer samples, and the bandwidth rules on Samples and on a harness type. Non-trivial = hits a class; distinct by hash of (data, weights, kernel, bandwidth, boundaries).")
+	r.Rule("KDEs over samples of 1..40 values (uniform, clustered, tied lattice, normal, outlier, constant; data scale log-uniform over 1e-12..1e12 in every class, all oracles being relative to the data scale; location up to 1000 spreads from the origin, in a quarter of the zero-bandwidth class 1e3..1e7 spreads, in the far class 1e8..1e12 spreads), optional positive weights, 3 kernels, bandwidth 0.02..50 spreads (or 0 = Scott's rule, unweighted data with positive IQR), 4 boundary configurations at distance 0..100 spreads, no boundaries written (0,0) or (-Inf,+Inf); per KDE: 60 points (data points and their neighbours, kernel ends, boundaries and their neighbours, outside the boundaries, far away, uniform over the support), 6 sub-interval integrals plus the total mass, Bounds; Gaussian kernel: also points 5..37 bandwidths beyond the data (tails). Call histories: a zero-Bandwidth KDE's first call (PDF, CDF or Bounds, at a sample value or any point) is judged by value, as are first calls of three more fresh zero-Bandwidth twins at other points; every fourth random KDE (and half of the zero-bandwidth ones) is, after its evaluation, re-parameterised (Bandwidth and/or Kernel and/or boundaries assigned; in the zero-bandwidth class also Bandwidth set back to 0) on the same struct and on a by-value copy of the struct as first used, and each is evaluated again (about 30 points, 2 integrals, Bounds) against the model of the new parameters; three in eight random KDEs (a quarter of the zero-bandwidth ones) instead go through four steps that change the sample after use (all of Sample.Xs and/or Sample.Weights overwritten in place; another Sample of the same or of another length assigned, with or without weights; on the struct and on by-value copies, which share the backing arrays of the first sample, so that a write through one is seen by the other), each step followed by an evaluation against the model of the data and parameters the struct holds at the time of the call. Plus Bounds under stress (three clusters of values, each outer cluster carrying 0.3%..1.2% of the weight beyond a gap much wider than the bandwidth, so that the distribution function has a plateau near the levels an end-point search aims at; the oracle is the statement's 98%), non-constant samples 1e8..1e12 spreads from the origin (bandwidth at least 1024 ulps of the data; weights, boundaries also touching the data; Bounds' end points are held to 64 ulps), an enumerated family of small integer samples, and the bandwidth rules on Samples and on a harness type. Large samples (the statement holds for samples of any size; an implementation may work in blocks, change algorithm above a size or count in a narrow integer): 41..20000 (quick) / 200000 (thorough) values, log-uniform, plus every round size 64, 100, 128, 256, 500, 512, 1000, 1024, 2000, 2048, 4096, 5000, 8192, 10000, 16384, 20000, 32768, 65536 (thorough: also 50000, 100000, 131072, 200000) as it stands and plus one, in three classes through the same judges: KDEs with an explicit bandwidth 0.02..50 spreads (3 kernels, weights in a third, 4 boundary configurations, values in random order or flagged sorted; shapes as above plus log-normal and exponential), KDEs with zero Bandwidth (Scott's rule from the exact standard deviation and the exact R8 quartiles of the values sorted by the harness, accepted down to 0.001 spreads since it shrinks like n^(-1/5); half of the shapes skewed so that the quartile difference decides), and the bandwidth rules on Samples. Above 300 values a KDE is evaluated at 24 points and Bounds without the integrals (one quadrature panel per kernel end, each an O(n) call), the largest density that scales the density tolerances is taken over 32 of the data points (a smaller scale only tightens), with two boundaries the bandwidth is limited to max(0.25, min(50, 2000/n)) boundary widths, and the range/monotonicity slack of a distribution function value is max(1e-12, 2n x 2^-52), the bound of a plain sum of n terms. Non-trivial = hits a class; distinct by hash of (data, weights, kernel, bandwidth, boundaries).")
 	r.Assume("reference: weighted kernel average written from the definition (Neumaier sums), explicit mirror-image sums for the folded estimate (Gaussian images beyond 12 bandwidths dropped: < 5e-32 of the peak), window masses evaluated in the well-conditioned tail; self-tested at start-up against hand-computed values, the 384-bit normal CDF and its own integrals; Go's math.Exp/Erf/Erfc are trusted",
 		"in-domain: data inside [BoundaryMin,BoundaryMax]; single-valued samples (n = 1 or constant) of any magnitude up to 1e19 (beyond 2^53 KDE.Bounds used to loop for ever: defect D22, repaired); positive weights; zero Bandwidth only with unweighted data, n >= 2 and positive IQR (weighted standard deviation is not implemented by the library and panics by design); finite evaluation points",
 		"no step budget inside Bounds itself: KDE.Bounds calls KDE.CDF directly, there is no harness callback to count. Stand-in: before every Bounds call the harness walks away from the data in doubling steps and requires the library's CDF to reach 0.005 / 0.995 within 2200 evaluations per side (else violation, Bounds not called); a case already refuted at its evaluation points is not continued. Any other non-termination can only trip the watchdog (inconclusive)",
@@ -1585,6 +1696,10 @@ func c12Run(r *mon.Run) {
 		"resample/weighted<->unweighted", "reparam/zero-bandwidth-after-resample")
 	gates = append(gates, "bounds-plateau", "bounds-plateau/both-tails-0.4%..0.6%", "bounds-plateau/both-tails-0.9%..1.1%",
 		"data>=1e8-spreads-from-origin", "data>=1e10-spreads-from-origin", "far-data/weights", "far-data/boundaries", "far-data/boundary-touching-data")
+	gates = append(gates, "large/n=41..256", "large/n=257..999", "large/n=1000..9999", "large/n>=10000", "large/n>=2^16",
+		"large/n-at-round-size", "large/n-just-beyond-round-size", "large/unsorted-unweighted-n>=1000", "large/weights", "large/sorted-flag",
+		"large/epanechnikov", "large/gaussian", "large/delta", "large/bounded-kernel-narrower-than-data",
+		"large/zero-bandwidth", "large/zero-bandwidth/robust-branch", "large/bw-sample", "large/bw-robust-branch")
 	r.Gate(append(gates, "single-valued-sample-beyond-2^53")...)
 
 	const npts, nivs = 60, 6
@@ -1999,6 +2114,122 @@ func c12Run(r *mon.Run) {
 		w.Distinct(c12Hash(c))
 	})
 
+	// 3e. large samples: 41 .. 20 000 (quick) / 200 000 (thorough) values,
+	// log-uniform, and every round size (powers of two, 100, 500, 1000, 5000,
+	// 10 000 ...) as it stands and plus one, through the same judge: an
+	// implementation may work in blocks, switch to another algorithm above a
+	// size, or count in a narrow integer, and the statement holds for samples
+	// of any size. Shapes as above plus two skewed ones (log-normal,
+	// exponential); values in random order unless flagged sorted. The
+	// reference is the same O(n) kernel average per point, so the points are
+	// fewer (24), the integrals are taken up to 300 values only (one panel per
+	// kernel end), and with two boundaries the bandwidth is kept to a number
+	// of images that shrinks with n.
+	round, maxN := c12Sizes(r.Quick)
+	r.Parallel("kde-large", 6*len(round)+r.Pick(120, 1200), func(w *mon.W, i int) {
+		rng := w.Rng
+		n := c12LargeN(rng, i, 6, round, maxN)
+		kernel := i % 3
+		if i < 6*len(round) {
+			kernel = (i % 6) / 2
+		}
+		xs, scale := c12DataShape(rng, n, rng.PickI(0, 1, 2, 3, 4, 6, 7), 0, 1000)
+		c := c12Case{Op: "kde", Kernel: kernel}
+		if rng.Intn(3) == 0 {
+			c.Ws = mon.Fs(c12Weights(rng, n))
+		}
+		if rng.Intn(4) == 0 {
+			sort.Float64s(xs)
+			c.Sorted = true
+		}
+		c.Xs = mon.Fs(xs)
+		xmin, xmax := c12MinMax(xs)
+		spread := xmax - xmin
+		if !(spread > 0) {
+			spread = scale
+		}
+		h := rng.LogUniform(0.02, 50) * spread
+		if rng.Bool() {
+			h = rng.LogUniform(0.02, 0.5) * spread
+		}
+		bmin, bmax := c12Boundaries(rng, rng.Intn(4), xmin, xmax, spread)
+		if !math.IsInf(bmin, 0) && !math.IsInf(bmax, 0) && !(bmin == 0 && bmax == 0) {
+			if lim := math.Max(0.25, math.Min(50, 2000/float64(n))) * (bmax - bmin); h > lim {
+				h = lim * rng.Uniform(0.5, 1)
+			}
+		}
+		c.H = mon.F(h)
+		c.BMin, c.BMax = mon.F(bmin), mon.F(bmax)
+		if n <= c12IntegMaxN {
+			c12Points(rng, &c, h, npts, 3)
+		} else {
+			c.NoTotal = true
+			c12Points(rng, &c, h, 24, 0)
+		}
+		c12Judge(w, c)
+		w.Distinct(c12Hash(c))
+	})
+
+	// 3f. large samples with zero Bandwidth: Scott's rule from the exact
+	// standard deviation and the exact R8 quartiles of the values (sorted by
+	// the harness), on values handed over in random order; half of the shapes
+	// are skewed, so that the quartile difference decides the bandwidth.
+	// Scott's bandwidth shrinks like n^(-1/5): it is accepted down to 0.001
+	// spreads here.
+	r.Parallel("zero-bandwidth-large", 6*len(round)+r.Pick(60, 600), func(w *mon.W, i int) {
+		rng := w.Rng
+		n := c12LargeN(rng, i, 6, round, maxN)
+		shapes := []int{7, 6, 3, 0, 6, 1, 7, 4}
+		farData := rng.Intn(4) == 0
+		var xs []float64
+		var info ref.ScottInfo
+		var spread float64
+		for try := 0; ; try++ {
+			if try >= 20 {
+				xs = make([]float64, n)
+				for j := range xs {
+					xs[j] = float64(j)
+				}
+			} else if farData {
+				xs, _ = c12DataShape(rng, n, shapes[(i/2+try)%len(shapes)], 1e3, 1e7)
+			} else {
+				xs, _ = c12DataShape(rng, n, shapes[(i/2+try)%len(shapes)], 0, 10)
+			}
+			xmin, xmax := c12MinMax(xs)
+			spread = xmax - xmin
+			info = ref.BandwidthRules(xs)
+			if spread > 0 && info.IQR > 0 && info.Scott >= 0.001*spread && info.Scott <= 50*spread {
+				break
+			}
+		}
+		kernel := (i / 3) % 3
+		if i < 6*len(round) {
+			kernel = (i % 6) / 2
+		}
+		c := c12Case{Op: "kde", Kernel: kernel, H: 0, First: []string{"CDF", "PDF", "Bounds"}[i%3]}
+		if rng.Intn(4) == 0 {
+			sort.Float64s(xs)
+			c.Sorted = true
+		}
+		c.Xs = mon.Fs(xs)
+		xmin, xmax := c12MinMax(xs)
+		bmin, bmax := c12Boundaries(rng, rng.Intn(4), xmin, xmax, spread)
+		c.BMin, c.BMax = mon.F(bmin), mon.F(bmax)
+		if n <= c12IntegMaxN {
+			c12Points(rng, &c, info.Scott, npts, 3)
+		} else {
+			c.NoTotal = true
+			c12Points(rng, &c, info.Scott, 24, 0)
+		}
+		fx := mon.F(xs[rng.Intn(len(xs))])
+		if rng.Bool() {
+			fx = c.Pts[rng.Intn(len(c.Pts))]
+		}
+		c.FirstX = &fx
+		c12Judge(w, c)
+		w.Distinct(c12Hash(c))
+	})
+
 	// 4. the bandwidth rules on Samples
 	r.Parallel("bw-sample", r.Pick(800, 8000), func(w *mon.W, i int) {
 		rng := w.Rng
@@ -2017,6 +2248,26 @@ func c12Run(r *mon.Run) {
 			c.Sorted = true
 		}
 		w.HitIf(n == 1, "n=1")
+		c12Judge(w, c)
+		w.Distinct(c12Hash(c))
+	})
+
+	// 4b. the bandwidth rules on large Samples (sizes as in 3e), skewed and
+	// symmetric, tied, in random order or flagged sorted
+	r.Parallel("bw-sample-large", 2*len(round)+r.Pick(150, 1500), func(w *mon.W, i int) {
+		rng := w.Rng
+		n := c12LargeN(rng, i, 2, round, maxN)
+		shape := []int{7, 6, 3, 0, 1, 4, 2}[(i/2)%7]
+		xs, _ := c12DataShape(rng, n, shape, 0, 100)
+		if rng.Intn(5) == 0 {
+			xs, _ = c12DataShape(rng, n, shape, 1e3, 1e7)
+		}
+		c := c12Case{Op: "bw-sample"}
+		if rng.Intn(3) == 0 {
+			sort.Float64s(xs)
+			c.Sorted = true
+		}
+		c.Xs = mon.Fs(xs)
 		c12Judge(w, c)
 		w.Distinct(c12Hash(c))
 	})
